@@ -4,4 +4,4 @@ Require Import ExtrOcamlBasic.
 From Gatery Require Import Bits VcdDefs TvDefs.
 Extraction "c20_model.ml"
   declare write_body print_line parse_line body_of read_sig parse_var ident tick viewv
-  tv_file tv_stream tv_lines tv_parse tv_schedule.
+  tv_file tv_stream tv_lines tv_parse tv_schedule tv_rst_level rst_asserted.
